@@ -90,3 +90,17 @@ Proof.
   - split; [reflexivity|]. intros i Hi. simpl in Hi. destruct i as [|[|j]]; unfold lo, hi; simpl; try lra; lia.
   - right; left. intros i Hi. simpl in Hi. destruct i as [|[|j]]; unfold lo; simpl; try lra; lia.
 Qed.
+
+(* ==== several cumulative ranges (Proofs/RangesProofs.v) ================================================================ *)
+From DK.Proofs Require Import RangesProofs.
+
+(* CDevice2 with any list of cumulative ranges: a sum of convex kernels of range totals (generalises C07_cdevice2_one_range) *)
+Theorem C07_cdevice2_any_ranges : forall n b cbs pl ph p, pl <= ph -> (forall c, In c cbs -> cb_lo c <= cb_hi c) ->
+  convex_on (in_box_R b) (fun s => leaf_cost (Build_leafdev n b cbs (KC2 pl ph)) s p).
+Proof. exact convex_cdevice2_multi. Qed.
+Theorem C07_sum_of_convex_is_convex : forall (T : Type) (B : list R -> Prop) (Fc : T -> list R -> R) (cs : list T),
+  (forall c, In c cs -> convex_on B (Fc c)) -> convex_on B (fun y => vsum (map (fun c => Fc c y) cs)).
+Proof. exact @convex_vsum_map. Qed.
+Theorem C07_range_total_is_affine : forall l (x y : list R) s e, length x = length y ->
+  slice s e (vlerp l x y) = vlerp l (slice s e x) (slice s e y).
+Proof. exact slice_vlerp. Qed.
